@@ -13,7 +13,7 @@ META = {
     "rule": "L1 lexer drops nothing; L2 GleamLexer::next forwards every logos token with its span; L3 parse_module "
             "filters exactly the trivia; L4 pos/Advance have one writer; L5 events only grow, one pop; L6 module() "
             "returns only at end of input; L7 every build_tree arm eats a run of trivia (Advance: run + 1); L8 eat_token "
-            "emits count tokens in order. Each premise is split into the MIR facts that establish it.",
+            "emits count tokens in order. Each premise is split into the MIR facts that establish it. L9 (= C02/P4, P5) the progress guard of Parser::nth cannot fire, so a tree is built for every text.",
     "explanation": "Let R be the raw token list and N its non-trivia subsequence. L3-L6: parsing produces exactly |N| "
                    "Advance events and pos ends at |N|. L7-L8: processing the events in order, the tree builder's "
                    "cursor never skips a raw token: Open arms move over trivia only, the k-th Advance emits the pending "
@@ -589,6 +589,18 @@ def run(F, res, tier):
     bad = [k for k in R["panic_sites"] if "|" + PM.P + "bump|" in k]
     res.ob("L6", "bump-never-past-end", "no bump() is reachable at end of input (pos never exceeds tokens.len())", not bad,
            where=LOC, how="engine P: %d contexts, EOF excluded at all %d bump sites" % (R["contexts"], len(R["bumps"])) if not bad else str(bad))
+
+
+    # there is a tree at all: parse_module's one deliberate panic (the progress guard in Parser::nth) cannot fire (C02/P4, P5)
+    from rules import c02 as _c02
+    NS = _c02.nesting_status(F, R)
+    init, refill = _c02.fuel_constants(F)
+    shallow = init is not None and refill is not None and R["la_abs"] < min(init, refill)
+    res.ob("L9", "tree-for-every-text", "parse_module builds a tree for every text: the look-ahead budget covers the largest run of look-aheads between "
+           "two consumed tokens, at the surface and on the way back out of the deepest nesting the guard admits (C02/P4, P5a, P5b)",
+           NS["ok"] and shallow, where="crates/syntax/src/parser.rs",
+           how="%s x %s + %s + %s = %s vs fuel %s; nesting guard and cuts: %s" % (NS["limit"], NS["heaviest_level"], NS["non_recursive_tails"], NS["head"],
+                                                                               NS["bound"], NS["fuel"], NS["ok"]))
 
 
 def thorough(F, res):
